@@ -69,6 +69,19 @@ Theorem sink_leaves_outputs_untouched : forall cfgs i x,
 Proof. exact FeedbackFacts.eval_sink_nodes. Qed.
 Print Assumptions sink_leaves_outputs_untouched.
 
+(* invalidation: a producer may also WITHDRAW its value (out.invalidate(), Engine.OInvalidate).  That
+   notifies the sink, but the sink's callback sits behind the node gate valid_inputs = {0} and does
+   not run: nothing is captured, nothing is scheduled.  An invalidation is therefore not a write
+   ([ticks_of p] lists the cycles in which p's output was modified AND holds a value) and, by
+   [feedback_shift], produces nothing on the reader side: the feedback keeps the last delivered value. *)
+Theorem sink_ignores_invalid_producer : forall cfgs j x p s,
+  cfg cfgs j = sink_cfg p s -> n_val (node_at p (f_g x)) = None ->
+  let x' := eval_sink cfgs j x in
+  g_nodes (f_g x') = g_nodes (f_g x) /\ f_st x' = f_st x /\ g_slots (f_g x') = g_slots (f_g x) /\
+  g_nst (f_g x') = g_nst (f_g x).
+Proof. exact FeedbackFacts.sink_ignores_invalid_producer_l. Qed.
+Print Assumptions sink_ignores_invalid_producer.
+
 (* ---- one engine cycle ---------------------------------------------------------------- *)
 (* [FB pend x] is the invariant between two cycles ([pend] = the value captured and not yet
    delivered; the next cycle is at g_nst).  One cycle: the source ticks exactly [pend]; what
@@ -197,6 +210,17 @@ Example ex_passive_loop :
   ticks_of 1 sts = [(1, 7); (2, 8); (3, 10); (6, 13)] /\
   map (fun x => g_now (f_g x)) sts = [1; 2; 3; 5; 6] /\ g_nst (f_g x) = MAX_DT.
 Proof. vm_compute. split; [reflexivity|]. split; [reflexivity|]. split; [reflexivity|]. split; reflexivity. Qed.
+
+(* a run with an invalidation: the producer writes 10 at 1, invalidates at 2, writes 30 at 3; the
+   reader side shows (2,10) and (4,30), nothing at 3 *)
+Definition inval_case : wire :=
+  [[1;1;8]; [4;0;0;0]; [2;1;1;0;1;0;0]; [5;2;1;0];
+   [3;1;-1;1;0;0]; [3;1;0;6;10;0]; [3;1;0;1;1;0]; [3;1;1;11;0;0]; [3;1;1;1;1;0]; [3;1;2;6;30;0]].
+
+Example ex_invalidation :
+  let '(x, sts) := run_of inval_case in
+  g_err (f_g x) = 0 /\ ticks_of 1 sts = [(1, 10); (3, 30)] /\ ticks_of 0 sts = [(2, 10); (4, 30)].
+Proof. vm_compute. split; [reflexivity|]. split; reflexivity. Qed.
 
 (* the hypotheses of [passive_loop_quiesces] are met by the state after the cycle of the last
    external write (t = 5) of the passive accumulator (the same graph without the recorder,
